@@ -386,21 +386,58 @@ func runC11(c *Ctx) {
 	okIdx := false
 	if fc, ok := set.Call.Args[0].(*ssa.Call); ok && calleeFullName(fc) == "(reflect.Value).Field" {
 		idx := fc.Call.Args[1]
-		okIdx = derivesAny(lookup.Call.Args[0], func(x ssa.Value) bool {
-			cc, ok := x.(*ssa.Call)
-			if !ok || calleeFullName(cc) != "(reflect.StructTag).Get" {
-				return false
-			}
-			s, _ := constString(cc.Call.Args[1])
-			if s != "dialsenv" {
-				return false
-			}
-			// receiver: Tag of valType.Field(idx)
-			return derivesAny(cc.Call.Args[0], func(y ssa.Value) bool {
-				fcall, ok := y.(*ssa.Call)
-				return ok && calleeFullName(fcall) == "(reflect.Type).Field" && fcall.Call.Args[0] == idx
+		tagOfField := func(name ssa.Value, idx ssa.Value) bool {
+			return derivesAny(name, func(x ssa.Value) bool {
+				cc, ok := x.(*ssa.Call)
+				if !ok || calleeFullName(cc) != "(reflect.StructTag).Get" {
+					return false
+				}
+				s, _ := constString(cc.Call.Args[1])
+				if s != "dialsenv" {
+					return false
+				}
+				// receiver: Tag of valType.Field(idx)
+				return derivesAny(cc.Call.Args[0], func(y ssa.Value) bool {
+					fcall, ok := y.(*ssa.Call)
+					return ok && calleeFullName(fcall) == "(reflect.Type).Field" && fcall.Call.Args[0] == idx
+				}, nil)
 			}, nil)
-		}, nil)
+		}
+		okIdx = tagOfField(lookup.Call.Args[0], idx)
+		if !okIdx {
+			// the names worked out in a loop of their own and kept in a slice: names[i] is looked up for field i, and
+			// every store into names[j] is the tag of field j
+			var buf ssa.Value
+			derivesAny(lookup.Call.Args[0], func(x ssa.Value) bool {
+				u, ok := x.(*ssa.UnOp)
+				if !ok || u.Op != token.MUL {
+					return false
+				}
+				ia, ok := u.X.(*ssa.IndexAddr)
+				if ok && ia.Index == idx {
+					buf = ia.X
+				}
+				return ok
+			}, nil)
+			if buf != nil {
+				stores, good := 0, true
+				for _, i := range allInstrs(f) {
+					st, ok := i.(*ssa.Store)
+					if !ok {
+						continue
+					}
+					ia, ok := st.Addr.(*ssa.IndexAddr)
+					if !ok || !sameValue(ia.X, buf) {
+						continue
+					}
+					stores++
+					if !tagOfField(st.Val, ia.Index) {
+						good = false
+					}
+				}
+				okIdx = stores > 0 && good
+			}
+		}
 	}
 	c.check(okIdx, "only-present", "env#same-index", set.Pos(), "the name looked up is the dialsenv tag of field i and the value goes into field i", "the looked-up name is not the dialsenv tag of the field that is written")
 	// prefix: a string concat with "_" under Prefix != ""
